@@ -17,6 +17,7 @@ import (
 	"pgregory.net/rapid"
 
 	gnet "github.com/panjf2000/gnet/v2"
+	"github.com/panjf2000/gnet/v2/internal/vshim"
 	"github.com/panjf2000/gnet/v2/verifx/fx"
 	"github.com/panjf2000/gnet/v2/verifx/vio"
 	"github.com/panjf2000/gnet/v2/verifx/vstat"
@@ -63,6 +64,9 @@ type connSpec struct {
 type caseSpec struct {
 	Cfg   fx.Cfg
 	Conns []connSpec
+	// ShortWrites: percentages handed to the system-call shim; the kernel is offered only that
+	// share of each write/writev on the connections (0 = EAGAIN, LT mode only)
+	ShortWrites []int
 }
 
 func (o wop) String() string {
@@ -82,7 +86,7 @@ func (o wop) String() string {
 
 func (c caseSpec) String() string {
 	var b strings.Builder
-	fmt.Fprintf(&b, "cfg: %s\n", c.Cfg)
+	fmt.Fprintf(&b, "cfg: %s shortWrites%%=%v\n", c.Cfg, c.ShortWrites)
 	for i, cs := range c.Conns {
 		fmt.Fprintf(&b, " conn%d: openReply %d batches %v\n        peer %v\n", i, cs.OpenReply, cs.Batches, cs.Peer)
 	}
@@ -114,6 +118,8 @@ type connState struct {
 	seq       map[int]int // loop goroutine only, except external producers own their pid
 	effSeq    map[int]int // loop goroutine only: next sequence number due per async producer
 	nextPid   int
+	plan      *vshim.Plan
+	fd        int
 	pending   int32 // async operations issued whose callback has not run
 	externs   int32 // external producers still running
 	scriptEnd int32
@@ -148,6 +154,10 @@ func (st *connState) observe(c gnet.Conn, where string) {
 	if ob < 0 || ob > acc-rcv {
 		st.failf("out-buffered", "%s: OutboundBuffered() = %d, but %d bytes were accepted and the peer has already received %d", where, ob, acc, rcv)
 	}
+	// exact: accepted minus what the kernel has taken for this descriptor (ledger of the shim)
+	if taken := int(st.plan.Taken(st.fd)); ob != acc-taken {
+		st.failf("out-buffered-exact", "%s: OutboundBuffered() = %d, but %d bytes were accepted and the kernel has taken %d of them", where, ob, acc, taken)
+	}
 	if ob > st.maxOB {
 		st.maxOB = ob
 	}
@@ -165,6 +175,8 @@ func (st *connState) checkDone() {
 
 func (st *connState) OnOpen(c gnet.Conn) ([]byte, gnet.Action) {
 	st.conn = c
+	st.fd = c.Fd()
+	st.plan.Track(st.fd)
 	var out []byte
 	if st.spec.OpenReply >= 0 {
 		out = record(0, st.next(0), st.spec.OpenReply)
@@ -367,9 +379,14 @@ type result struct {
 	fails, stalls []string
 	infra         string
 	states        []*connState
+	shortHits     int64
 }
 
 func runSession(cs caseSpec) (res result) {
+	plan := &vshim.Plan{ShortWrites: cs.ShortWrites}
+	vshim.Install(plan)
+	defer vshim.Install(nil)
+	defer func() { res.shortHits = plan.ShortHits }()
 	e, err := fx.Start(cs.Cfg, fx.EngineHooks{})
 	if err != nil {
 		res.infra = err.Error()
@@ -388,7 +405,7 @@ func runSession(cs caseSpec) (res result) {
 	addFail := func(s string) { mu.Lock(); res.fails = append(res.fails, s); mu.Unlock() }
 	addStall := func(s string) { mu.Lock(); res.stalls = append(res.stalls, s); mu.Unlock() }
 	for i := range cs.Conns {
-		st := &connState{id: i, spec: cs.Conns[i], cfg: cs.Cfg, seq: map[int]int{}, effSeq: map[int]int{}, doneTotal: -1, closedCh: make(chan struct{})}
+		st := &connState{id: i, spec: cs.Conns[i], cfg: cs.Cfg, plan: plan, seq: map[int]int{}, effSeq: map[int]int{}, doneTotal: -1, closedCh: make(chan struct{})}
 		res.states = append(res.states, st)
 		peer, _, err := e.Connect(st)
 		if err != nil {
@@ -595,6 +612,17 @@ func drawCase(t *rapid.T) caseSpec {
 	var cs caseSpec
 	cs.Cfg = fx.DrawCfg(t, fx.DrawOpt{SmallSnd: true})
 	cs.Cfg.RcvBuf = 0
+	if rapid.IntRange(0, 2).Draw(t, "shortWrites") == 0 {
+		pcts := []int{1, 10, 50, 99, 100, 100}
+		if !cs.Cfg.ET {
+			pcts = append(pcts, 0) // a faked EAGAIN is sound in LT mode only
+		}
+		n := rapid.IntRange(1, 6).Draw(t, "nShort")
+		for i := 0; i < n; i++ {
+			cs.ShortWrites = append(cs.ShortWrites, rapid.SampledFrom(pcts).Draw(t, "pct"))
+		}
+		cs.ShortWrites = append(cs.ShortWrites, 50) // a cycle of EAGAINs only would never make progress (the shim's fault, not gnet's)
+	}
 	nconn := rapid.IntRange(1, 3).Draw(t, "conns")
 	for i := 0; i < nconn; i++ {
 		var c connSpec
@@ -734,6 +762,9 @@ func TestC02Sessions(t *testing.T) {
 		}
 		if cs.Cfg.Client {
 			st.Label("client_side")
+		}
+		if res.shortHits > 0 {
+			st.Label("session_with_shim_shortened_writes")
 		}
 		if st.WantSample(nt) {
 			st.Sample(nt, cs.String())
